@@ -344,6 +344,52 @@ def check_direct_edges(ctx, rep):
     return n
 
 
+def _closure_id_of(body, op):
+    pl = mir.op_place(op)
+    if pl is None or pl["p"]:
+        return None
+    for _bi, si, rv in body.defs().get(pl["l"], []):
+        if si != "term" and rv["k"] == "agg" and rv.get("ak") == "closure":
+            return rv.get("closure")
+    return None
+
+
+def upstream_filters(prog, closure_body):
+    """closure bodies of the `filter` adaptors that stand upstream of the adaptor `closure_body` is handed to, in the same iterator
+    chain: what such a closure returns is a condition under which `closure_body` runs at all (`.filter(p).filter_map(f)` runs f
+    only on elements with p)"""
+    out = []
+    cid = closure_body.rec.get("alias_of", closure_body.id)
+    parent = prog.bodies.get(closure_body.rec.get("parent") or closure_body.rec.get("root"))
+    if parent is None:
+        return out
+    for bi, t in parent.calls():
+        if not any(_closure_id_of(parent, a) in (cid, closure_body.id) for a in t.get("args", [])[1:]):
+            continue
+        cur = mir.op_place(t["args"][0])
+        for _i in range(12):
+            if cur is None or cur["p"]:
+                break
+            sd = parent.single_def(cur["l"])
+            if not sd or sd[1] != "term":
+                if sd and sd[2]["k"] == "use":
+                    cur = mir.op_place(sd[2]["op"])
+                    continue
+                break
+            tt = parent.term(sd[0])
+            nm = strip_generics(mir.callee_name(tt) or "")
+            if nm.endswith("Iterator::filter") and len(tt["args"]) > 1:
+                fid = _closure_id_of(parent, tt["args"][1])
+                for k, fb in prog.bodies.items():
+                    if k == fid or fb.rec.get("alias_of") == fid:
+                        out.append(fb)
+                        break
+            if not tt["args"]:
+                break
+            cur = mir.op_place(tt["args"][0])
+    return out
+
+
 _SELECTING = ("Iterator::filter(", "Iterator::filter_map(", "Iterator::skip(", "Iterator::take(", "Iterator::skip_while(", "Iterator::take_while(",
               "Iterator::step_by(", "Iterator::nth(", "Iterator::find(", "Iterator::last(", "Option::filter(")
 
@@ -371,6 +417,64 @@ def _flat_map_union(prog, cs, ret):
         if rv.kind == "call" and strip_generics(rv.v).endswith("Iterator::chain"):
             return True
     return False
+
+
+def _pipeline_tag_defs(prog, b, cs):
+    """`subject.keys().filter_map(|key| self.get(^key)).collect()`: returns the text of the collected list, or None"""
+    for c in cs:
+        if c[0].id != b.id or not c[2].endswith("Iterator::filter_map"):
+            continue
+        src = c[3][0]
+        if "BTreeMap::keys(" not in src or "_2*" not in src or _selects(src):
+            continue
+        t = b.term(c[1])
+        cid = _closure_id_of(b, t["args"][1]) if len(t["args"]) > 1 else None
+        clo = next((x for k, x in prog.bodies.items() if k == cid or x.rec.get("alias_of") == cid), None)
+        if clo is None:
+            continue
+        rv = G.describe_place(clo, {"l": 0, "p": []})
+        inner = [x for x in cs if x[0].id == clo.id and (x[2].endswith("Namespace::get") or x[2].endswith("Namespace::get_by_name"))]
+        if rv.kind == "call" and strip_generics(rv.v).endswith(("Namespace::get", "Namespace::get_by_name")) and len(inner) == 1 and "elem(" in inner[0][3][1] and inner[0][3][0] == "_1*":
+            coll = [x for x in cs if x[0].id == b.id and x[2].endswith("Iterator::collect") and x[3] and x[3][0].startswith("std::iter::Iterator::filter_map(" + src)]
+            if len(coll) == 1:
+                return "std::iter::Iterator::collect(" + coll[0][3][0]
+    return None
+
+
+def _pipeline_markers(prog, b, cs):
+    """`subject.keys()..filter(|tag| <has a def> && subject.has_marker(tag)).collect()`: the selecting closure is true only when
+    has_marker(subject, tag) is (truth table), and consults nothing but the tag's def and marker-ness; returns the collected text"""
+    from rules import pathcond as PC
+
+    for c in cs:
+        if c[0].id != b.id or not c[2].endswith("Iterator::filter"):
+            continue
+        src = c[3][0]
+        if "BTreeMap::keys(" not in src or "_2*" not in src or _selects(src):
+            continue
+        t = b.term(c[1])
+        cid = _closure_id_of(b, t["args"][1]) if len(t["args"]) > 1 else None
+        clo = next((x for k, x in prog.bodies.items() if k == cid or x.rec.get("alias_of") == cid), None)
+        if clo is None:
+            continue
+        inner = [x for x in cs if x[0].id == clo.id]
+        hm = [x for x in inner if x[2].endswith("HaystackDict>::has_marker")]
+        other = [x for x in inner if not x[2].endswith(("HaystackDict>::has_marker", "Namespace::has", "Namespace::get", "Namespace::get_by_name", "From>::from", "::as_str", "Deref>::deref", "Option::is_some"))]
+        if len(hm) != 1 or hm[0][3][0] != "_2*" or "elem(" not in hm[0][3][1] or other:
+            continue
+        rets = {bi for bi in range(clo.n) if clo.term(bi)["k"] == "return"}
+        pos, _neg = PC.bool_outcomes(PC.enumerate_paths(clo, lambda x: x in rets))
+        atoms = PC.atoms_of(pos)
+        H = [a for a in atoms if a.startswith("has_marker(")]
+        if len(H) != 1:
+            continue
+        o, _c = PC.entails(pos, lambda asg: bool(asg.get(H[0])), atoms)
+        if not o:
+            continue
+        coll = [x for x in cs if x[0].id == b.id and x[2].endswith("Iterator::collect") and x[3] and x[3][0].startswith("std::iter::Iterator::filter(" + src)]
+        if len(coll) == 1:
+            return "std::iter::Iterator::collect(" + coll[0][3][0]
+    return None
 
 
 def check_reflect(ctx, rep):
@@ -432,6 +536,10 @@ def check_reflect(ctx, rep):
     if good:
         gs = [g for g in G.guards_at(push[0][0], push[0][1]) if "Namespace::get" not in repr(g.a) and "Iterator>::next" not in repr(g.a)]
         good = not gs
+    pipe_defs = None
+    if not good:
+        pipe_defs = _pipeline_tag_defs(prog, b, cs)
+        good = pipe_defs is not None
     if good:
         _ok(rep, "reflect:tag-defs", b.where(), "the def of every tag of the record that has one is taken, whatever the tag's value")
     else:
@@ -443,6 +551,10 @@ def check_reflect(ctx, rep):
     if good:
         gs = G.guards_at(ins[0][0], ins[0][1])
         good = any(g.op == "True" and g.a is not None and g.a.kind == "call" and g.a.v.endswith("has_marker") for g in gs)
+    pipe_markers = None
+    if not good:
+        pipe_markers = _pipeline_markers(prog, b, cs)
+        good = pipe_markers is not None
     if good:
         _ok(rep, "reflect:markers", b.where(), "a tag counts as a conjunct part exactly when the record has it as a marker")
     else:
@@ -451,7 +563,12 @@ def check_reflect(ctx, rep):
     fc = _find(cs, "Namespace::find_conjuncts")
     ext = [c for c in cs if c[2].endswith("Extend>::extend")]
     ext = [c for c in ext if "Namespace::find_conjuncts(" in c[3][1]]
-    if len(fc) == 1 and fc[0][3][0] == "_1*" and "HashSet" in fc[0][3][1] and len(ext) == 1 and push and ext[0][3][0] == push[0][3][0]:
+    same_list = bool(push) and len(ext) == 1 and ext[0][3][0] == push[0][3][0]
+    if not same_list and pipe_defs is not None and len(ext) == 1:
+        # the list that is extended is the one collected from the tag pipeline
+        same_list = pipe_defs in ext[0][3][0]
+    marker_arg_ok = len(fc) == 1 and ("HashSet" in fc[0][3][1] or (pipe_markers is not None and pipe_markers in fc[0][3][1]))
+    if len(fc) == 1 and fc[0][3][0] == "_1*" and marker_arg_ok and len(ext) == 1 and same_list:
         _ok(rep, "reflect:conjuncts", b.where(fc[0][1]), "the conjunct defs found for the markers are added to the tag defs")
     else:
         _bad(rep, "reflect:conjuncts", b.where(), "the defs list is not extended by find_conjuncts(markers)")
@@ -490,6 +607,12 @@ def check_reflect(ctx, rep):
         if len(alls) == 1 and not anys and len(cont) == 1 and sep_ok and len(gbn) == 1:
             gs = G.guards_at(gbn[0][0], gbn[0][1])
             cond = any(g.op == "True" and g.a is not None and (g.a.v.endswith("Iterator>::all") or g.a.v.endswith("Iterator::all")) for g in gs if g.a is not None and g.a.kind == "call")
+            if not cond and gbn[0][0].rec["kind"] == "Closure":
+                # the pipeline spelling: `.filter(|..| parts.all(..)).filter_map(|..| get_by_name(..))`
+                for fb in upstream_filters(prog, gbn[0][0]):
+                    rv = G.describe_place(fb, {"l": 0, "p": []})
+                    if rv.kind == "call" and strip_generics(rv.v).endswith(("Iterator>::all", "Iterator::all")):
+                        cond = True
             if cond:
                 _ok(rep, "conjuncts:all-parts-are-markers", cb.where(), "a conjunct is looked up (name = parts joined by '-') only when ALL its parts are markers of the record")
             else:
